@@ -42,18 +42,25 @@ Spelled(cv, ng, ip, fr, gr) ==
   \o (IF fr = <<>> THEN <<>> ELSE <<cv[1]>> \o FracChars(fr))
 \* the separator of the OTHER convention in place of the decimal separator: "," <-> "."
 Foreign(cv) == IF cv[1] = "," THEN "." ELSE ","
-Mutations == {"none", "twoDs", "tsAfterDs", "letter", "foreignDs"}
+\* "underscore", "tab", "otherDigits": texts Python's decimal.Decimal / int take for numbers (digit grouping with "_",
+\* surrounding white space, digits of other scripts) but that are no numbers written with the data format's separators
+Mutations == {"none", "twoDs", "tsAfterDs", "letter", "foreignDs", "underscore", "tab", "otherDigits"}
 Mutated(cv, text, mu) ==
   CASE mu = "none" -> text
     [] mu = "twoDs" -> text \o <<cv[1], "0">>                       \* a second decimal separator
     [] mu = "tsAfterDs" -> text \o <<cv[2], "0", "0", "0">>          \* thousands separator after the decimal separator
     [] mu = "letter" -> [text EXCEPT ![Len(text)] = "x"]
     [] mu = "foreignDs" -> [i \in 1..Len(text) |-> IF text[i] = cv[1] THEN Foreign(cv) ELSE text[i]]   \* written for another locale
+    [] mu = "underscore" -> text \o <<"_", "0">>
+    [] mu = "tab" -> <<"tab">> \o text
+    [] mu = "otherDigits" -> [i \in 1..Len(text) |-> IF text[i] = "0" THEN "arabic0" ELSE text[i]]
 Init == /\ conv \in Conventions /\ neg \in BOOLEAN /\ integral \in Integrals /\ fraction \in Fractions
         /\ grouped \in BOOLEAN /\ rule \in Rules
         /\ mutation \in Mutations
         /\ (mutation = "twoDs" => fraction # <<>>) /\ (mutation = "tsAfterDs" => (fraction # <<>> /\ conv[2] # ""))
         /\ (mutation = "foreignDs" => (fraction # <<>> /\ conv[2] # Foreign(conv)))   \* (else it would be a thousands separator)
+        /\ (mutation = "otherDigits" => \E i \in 1..Len(Spelled(conv, neg, integral, fraction, grouped)) :
+                                          Spelled(conv, neg, integral, fraction, grouped)[i] = "0")
         /\ (grouped => conv[2] # "")
         /\ ~(neg /\ integral = 0 /\ FracScaled(fraction) = 0)
         /\ cell = Mutated(conv, Spelled(conv, neg, integral, fraction, grouped), mutation)
